@@ -113,7 +113,7 @@ def build_coq():
             if rc != 0:
                 return False, o + e
         try:
-            rc, o, e = sh("make -j%d" % NCPU, cwd=COQ, timeout=3000)
+            rc, o, e = sh("ulimit -v 14000000; make -j%d" % NCPU, cwd=COQ, timeout=2400)
         except subprocess.TimeoutExpired:
             return False, "coq build timed out"
         return rc == 0, (o + e)[-4000:]
@@ -196,7 +196,7 @@ def build_coq_models_only():
                 return False, o + e
         models = sorted(f for f in os.listdir(os.path.join(COQ, "Model")) if f.endswith(".v"))
         targets = " ".join("Model/" + f + "o" for f in models)
-        rc, o, e = sh("make -j%d %s" % (NCPU, targets), cwd=COQ, timeout=3000)
+        rc, o, e = sh("ulimit -v 14000000; make -j%d %s" % (NCPU, targets), cwd=COQ, timeout=2400)
         return rc == 0, (o + e)[-3000:]
 
 
